@@ -10,8 +10,9 @@ Theorems over `Model/Transport.lean`:
 * `full_table_refuses` / `room_admits`: `Sessions::add` answers `NoSpaceSessions` (⇒ the transport
   answers busy or evicts) exactly when the table is full; `evict_then_room`: after removing the
   evicted session a new one is admitted;
-* `abandoned_reservation_released`, `completed_reservation_unreserved`: dropping a `ReservedSession`
-  without `complete` takes one session out of the table; `complete` clears the flag;
+* `abandoned_reservation_released`, `complete_makes_live`: dropping a `ReservedSession` without
+  `complete` takes one session out of the table; the (repaired) `complete` clears the flag at once:
+  the session, if still in the table, is not reserved afterwards;
 * `owner_drop_frees_or_marks`: an exchange dropped by its owner is freed or marked dropped, and
   (C10 `closer_finds_dropped`) the closer misses no dropped exchange — together: at quiescence no
   exchange slot stays occupied by an owned or dropped exchange;
@@ -201,6 +202,76 @@ theorem reserve_marks (t : Table) (ctr now : Nat) (h : t.sessions.length < Const
   unfold Table.add
   have : ¬ t.sessions.length ≥ Consts.maxSessions := by omega
   simp [this]
+
+/-! ## `complete()` makes the session live -/
+
+theorem find_set_self (l : List Sess) (uid i : Nat) (x : Sess) (hx : x.uid = uid)
+    (hi : l.findIdx? (·.uid == uid) = some i) : (l.set i x).find? (·.uid == uid) = some x := by
+  induction l generalizing i with
+  | nil => simp at hi
+  | cons a rest ih =>
+    rw [List.findIdx?_cons] at hi
+    by_cases ha : (a.uid == uid) = true
+    · simp only [ha, ↓reduceIte, Option.some.injEq] at hi
+      subst hi
+      simp [hx]
+    · simp only [ha, Bool.false_eq_true, ↓reduceIte, Option.map_eq_some_iff] at hi
+      obtain ⟨j, hj, rfl⟩ := hi
+      simp only [List.set_cons_succ, List.find?_cons, ha]
+      exact ih j hj
+
+theorem setSess_sess (t : Table) (x : Sess) (h : (t.find x.uid).isSome = true) :
+    (t.setSess x).sess x.uid = some x := by
+  unfold Table.setSess Table.sess
+  cases hf : t.find x.uid with
+  | none => simp [hf] at h
+  | some i =>
+    simp only
+    exact find_set_self t.sessions x.uid i x rfl hf
+
+theorem find_of_sess (t : Table) (uid : Nat) (s : Sess) (h : t.sess uid = some s) :
+    (t.find uid).isSome = true ∧ s.uid = uid := by
+  unfold Table.sess at h
+  unfold Table.find
+  have hp := List.find?_some h
+  have hm := List.mem_of_find?_eq_some h
+  refine ⟨?_, by simpa using hp⟩
+  rw [List.findIdx?_isSome]
+  exact List.any_eq_true.2 ⟨s, hm, hp⟩
+
+/-- **The repaired `ReservedSession::complete`**: afterwards the session — if it is still in the
+table — is no longer reserved, i.e. the receive path (`Sess.isForRx`) finds it from that moment on,
+not only when the handshake task has run again and dropped the handle. -/
+theorem complete_makes_live (t : Table) (uid now : Nat) (s : Sess)
+    (h : (t.reservedComplete uid now).1.sess uid = some s) : s.reserved = false := by
+  unfold Table.reservedComplete Table.get at h
+  cases hs : t.sess uid with
+  | none =>
+    simp only [hs] at h
+    cases h
+  | some s0 =>
+    simp only [hs] at h
+    obtain ⟨hf0, hu0⟩ := find_of_sess t uid s0 hs
+    let s1 : Sess := { s0 with lastUse := now }
+    have hu1 : s1.uid = uid := hu0
+    have h1 : (t.setSess s1).sess uid = some s1 := by
+      have := setSess_sess t s1 (by rw [hu1]; exact hf0)
+      rw [hu1] at this
+      exact this
+    obtain ⟨hf1, _⟩ := find_of_sess _ uid s1 h1
+    let s2 : Sess := { s1 with reserved := false }
+    have hu2 : s2.uid = uid := hu0
+    have h2 : ((t.setSess s1).setSess s2).sess uid = some s2 := by
+      have := setSess_sess (t.setSess s1) s2 (by rw [hu2]; exact hf1)
+      rw [hu2] at this
+      exact this
+    have : some s = some s2 := by rw [← h, ← h2]
+    have hs2 : s = s2 := Option.some.inj this
+    rw [hs2]
+
+example : ((({ sessions := [{ uid := 3, ctr := 0, reserved := true }] } : Table).reservedComplete 3 10).1.sess 3).map (·.reserved) = some false := by
+  decide
+
 
 /-! ## Exchange slots at quiescence -/
 
